@@ -144,7 +144,8 @@ func GoType(d TypeDesc) reflect.Type {
 		return reflect.MapOf(reflect.TypeOf(""), GoType(*d.Elem))
 	case "ptr":
 		return reflect.PtrTo(GoType(*d.Elem))
-	case "ifaceptr":
+	case "ifaceptr", "ifacenil":
+		// ifacenil: an interface{} target that holds a typed nil pointer to Elem
 		// an interface{} target that already holds a pointer to a (zero) Elem
 		return scalarTypes["iface"]
 	case "struct":
